@@ -62,6 +62,9 @@ def oracle(case: Case, out: str):
     if not case.claimed or rs.values_too_large(out):
         return None
     c: rs.SysCase = pickle.loads(bytes.fromhex(case.payload))
+    if "#ALIAS:" in out:
+        return ("returned-array-rewritten", "an array handed out by an earlier request (#" + out.split("#ALIAS:")[1].split(";")[0].split("|")[0].split("#")[0]
+                + ") changed its values when the store was written to later: earlier results / trace values are rewritten retroactively")
     if "#CURSOR" in out:
         return ("tracer-cursor-not-restored", "FullTracer._current_node is not None after a top-level request")
     if "#REUSE" in out:
